@@ -1855,6 +1855,122 @@ let g_NewVendorSpecific =
     true, false, false)), EmptyString)))))))))))))))))))); gop = OpGT; glit =
     (Zpos (XI (XO (XO (XI (XI (XI (XI XH)))))))) } :: [])
 
+(** val g_PacketServer_Serve : guard list **)
+
+let g_PacketServer_Serve =
+  { gexpr = (String ((Ascii (true, false, false, false, false, true, true,
+    false)), (String ((Ascii (false, false, true, false, true, true, true,
+    false)), (String ((Ascii (true, true, true, true, false, true, true,
+    false)), (String ((Ascii (true, false, true, true, false, true, true,
+    false)), (String ((Ascii (true, false, false, true, false, true, true,
+    false)), (String ((Ascii (true, true, false, false, false, true, true,
+    false)), (String ((Ascii (false, true, true, true, false, true, false,
+    false)), (String ((Ascii (false, false, true, true, false, false, true,
+    false)), (String ((Ascii (true, true, true, true, false, true, true,
+    false)), (String ((Ascii (true, false, false, false, false, true, true,
+    false)), (String ((Ascii (false, false, true, false, false, true, true,
+    false)), (String ((Ascii (true, false, false, true, false, false, true,
+    false)), (String ((Ascii (false, true, true, true, false, true, true,
+    false)), (String ((Ascii (false, false, true, false, true, true, true,
+    false)), (String ((Ascii (true, true, false, false, true, true, false,
+    false)), (String ((Ascii (false, true, false, false, true, true, false,
+    false)), (String ((Ascii (false, false, false, true, false, true, false,
+    false)), (String ((Ascii (false, true, true, false, false, true, false,
+    false)), (String ((Ascii (true, true, false, false, true, true, true,
+    false)), (String ((Ascii (false, true, true, true, false, true, false,
+    false)), (String ((Ascii (true, true, false, false, true, true, true,
+    false)), (String ((Ascii (false, false, false, true, false, true, true,
+    false)), (String ((Ascii (true, false, true, false, true, true, true,
+    false)), (String ((Ascii (false, false, true, false, true, true, true,
+    false)), (String ((Ascii (false, false, true, false, false, true, true,
+    false)), (String ((Ascii (true, true, true, true, false, true, true,
+    false)), (String ((Ascii (true, true, true, false, true, true, true,
+    false)), (String ((Ascii (false, true, true, true, false, true, true,
+    false)), (String ((Ascii (false, true, false, false, true, false, true,
+    false)), (String ((Ascii (true, false, true, false, false, true, true,
+    false)), (String ((Ascii (true, false, false, false, true, true, true,
+    false)), (String ((Ascii (true, false, true, false, true, true, true,
+    false)), (String ((Ascii (true, false, true, false, false, true, true,
+    false)), (String ((Ascii (true, true, false, false, true, true, true,
+    false)), (String ((Ascii (false, false, true, false, true, true, true,
+    false)), (String ((Ascii (true, false, true, false, false, true, true,
+    false)), (String ((Ascii (false, false, true, false, false, true, true,
+    false)), (String ((Ascii (true, false, false, true, false, true, false,
+    false)),
+    EmptyString))))))))))))))))))))))))))))))))))))))))))))))))))))))))))))))))))))))))))));
+    gop = OpEQ; glit = (Zpos XH) } :: ({ gexpr = (String ((Ascii (true, true,
+    false, false, true, true, true, false)), (String ((Ascii (false, true,
+    true, true, false, true, false, false)), (String ((Ascii (false, false,
+    true, true, false, true, true, false)), (String ((Ascii (true, false,
+    false, true, false, true, true, false)), (String ((Ascii (true, true,
+    false, false, true, true, true, false)), (String ((Ascii (false, false,
+    true, false, true, true, true, false)), (String ((Ascii (true, false,
+    true, false, false, true, true, false)), (String ((Ascii (false, true,
+    true, true, false, true, true, false)), (String ((Ascii (true, false,
+    true, false, false, true, true, false)), (String ((Ascii (false, true,
+    false, false, true, true, true, false)), (String ((Ascii (true, true,
+    false, false, true, true, true, false)), (String ((Ascii (true, true,
+    false, true, true, false, true, false)), (String ((Ascii (true, true,
+    false, false, false, true, true, false)), (String ((Ascii (true, true,
+    true, true, false, true, true, false)), (String ((Ascii (false, true,
+    true, true, false, true, true, false)), (String ((Ascii (false, true,
+    true, true, false, true, true, false)), (String ((Ascii (true, false,
+    true, true, true, false, true, false)),
+    EmptyString)))))))))))))))))))))))))))))))))); gop = OpEQ; glit =
+    Z0 } :: ({ gexpr = (String ((Ascii (true, false, false, false, false,
+    true, true, false)), (String ((Ascii (false, false, true, false, true,
+    true, true, false)), (String ((Ascii (true, true, true, true, false,
+    true, true, false)), (String ((Ascii (true, false, true, true, false,
+    true, true, false)), (String ((Ascii (true, false, false, true, false,
+    true, true, false)), (String ((Ascii (true, true, false, false, false,
+    true, true, false)), (String ((Ascii (false, true, true, true, false,
+    true, false, false)), (String ((Ascii (false, false, true, true, false,
+    false, true, false)), (String ((Ascii (true, true, true, true, false,
+    true, true, false)), (String ((Ascii (true, false, false, false, false,
+    true, true, false)), (String ((Ascii (false, false, true, false, false,
+    true, true, false)), (String ((Ascii (true, false, false, true, false,
+    false, true, false)), (String ((Ascii (false, true, true, true, false,
+    true, true, false)), (String ((Ascii (false, false, true, false, true,
+    true, true, false)), (String ((Ascii (true, true, false, false, true,
+    true, false, false)), (String ((Ascii (false, true, false, false, true,
+    true, false, false)), (String ((Ascii (false, false, false, true, false,
+    true, false, false)), (String ((Ascii (false, true, true, false, false,
+    true, false, false)), (String ((Ascii (true, true, false, false, true,
+    true, true, false)), (String ((Ascii (false, true, true, true, false,
+    true, false, false)), (String ((Ascii (true, true, false, false, true,
+    true, true, false)), (String ((Ascii (false, false, false, true, false,
+    true, true, false)), (String ((Ascii (true, false, true, false, true,
+    true, true, false)), (String ((Ascii (false, false, true, false, true,
+    true, true, false)), (String ((Ascii (false, false, true, false, false,
+    true, true, false)), (String ((Ascii (true, true, true, true, false,
+    true, true, false)), (String ((Ascii (true, true, true, false, true,
+    true, true, false)), (String ((Ascii (false, true, true, true, false,
+    true, true, false)), (String ((Ascii (false, true, false, false, true,
+    false, true, false)), (String ((Ascii (true, false, true, false, false,
+    true, true, false)), (String ((Ascii (true, false, false, false, true,
+    true, true, false)), (String ((Ascii (true, false, true, false, true,
+    true, true, false)), (String ((Ascii (true, false, true, false, false,
+    true, true, false)), (String ((Ascii (true, true, false, false, true,
+    true, true, false)), (String ((Ascii (false, false, true, false, true,
+    true, true, false)), (String ((Ascii (true, false, true, false, false,
+    true, true, false)), (String ((Ascii (false, false, true, false, false,
+    true, true, false)), (String ((Ascii (true, false, false, true, false,
+    true, false, false)),
+    EmptyString))))))))))))))))))))))))))))))))))))))))))))))))))))))))))))))))))))))))))));
+    gop = OpEQ; glit = (Zpos XH) } :: ({ gexpr = (String ((Ascii (false,
+    false, true, true, false, true, true, false)), (String ((Ascii (true,
+    false, true, false, false, true, true, false)), (String ((Ascii (false,
+    true, true, true, false, true, true, false)), (String ((Ascii (false,
+    false, false, true, false, true, false, false)), (String ((Ascii (true,
+    true, false, false, true, true, true, false)), (String ((Ascii (true,
+    false, true, false, false, true, true, false)), (String ((Ascii (true,
+    true, false, false, false, true, true, false)), (String ((Ascii (false,
+    true, false, false, true, true, true, false)), (String ((Ascii (true,
+    false, true, false, false, true, true, false)), (String ((Ascii (false,
+    false, true, false, true, true, true, false)), (String ((Ascii (true,
+    false, false, true, false, true, false, false)),
+    EmptyString)))))))))))))))))))))); gop = OpEQ; glit = Z0 } :: [])))
+
 (** val sW_Packet_Encode : z list list list **)
 
 let sW_Packet_Encode =
@@ -2206,64 +2322,64 @@ let parse_attrs b =
 
 (** val add0 : z -> bytes -> attrs -> attrs **)
 
-let add0 key v l =
-  app l ({ atype = key; aval = v } :: [])
+let add0 key0 v l =
+  app l ({ atype = key0; aval = v } :: [])
 
 (** val del_loop : nat -> z -> nat -> attrs -> attrs res **)
 
-let rec del_loop fuel key i l =
+let rec del_loop fuel key0 i l =
   match fuel with
   | O -> OutOfFuel
   | S f ->
     if Nat.ltb i (length l)
     then (match nth_error l i with
           | Some a ->
-            if Z.eqb a.atype key
-            then del_loop f key i (remove_at i l)
-            else del_loop f key (S i) l
+            if Z.eqb a.atype key0
+            then del_loop f key0 i (remove_at i l)
+            else del_loop f key0 (S i) l
           | None -> Panic)
     else Ok l
 
 (** val del : z -> attrs -> attrs res **)
 
-let del key l =
-  del_loop (S (length l)) key O l
+let del key0 l =
+  del_loop (S (length l)) key0 O l
 
 (** val lookup : z -> attrs -> bytes option **)
 
-let rec lookup key = function
+let rec lookup key0 = function
 | [] -> None
-| a :: r -> if Z.eqb a.atype key then Some a.aval else lookup key r
+| a :: r -> if Z.eqb a.atype key0 then Some a.aval else lookup key0 r
 
 (** val get : z -> attrs -> bytes **)
 
-let get key l =
-  match lookup key l with
+let get key0 l =
+  match lookup key0 l with
   | Some v -> v
   | None -> []
 
 (** val set_loop : nat -> z -> bytes -> nat -> bool -> attrs -> attrs res **)
 
-let rec set_loop fuel key v i found l =
+let rec set_loop fuel key0 v i found l =
   match fuel with
   | O -> OutOfFuel
   | S f ->
     if Nat.ltb i (length l)
     then (match nth_error l i with
           | Some a ->
-            if Z.eqb a.atype key
+            if Z.eqb a.atype key0
             then if found
-                 then set_loop f key v i true (remove_at i l)
-                 else set_loop f key v (S i) true
-                        (update_at i { atype = key; aval = v } l)
-            else set_loop f key v (S i) found l
+                 then set_loop f key0 v i true (remove_at i l)
+                 else set_loop f key0 v (S i) true
+                        (update_at i { atype = key0; aval = v } l)
+            else set_loop f key0 v (S i) found l
           | None -> Panic)
-    else Ok (if found then l else add0 key v l)
+    else Ok (if found then l else add0 key0 v l)
 
 (** val set : z -> bytes -> attrs -> attrs res **)
 
-let set key v l =
-  set_loop (S (length l)) key v O false l
+let set key0 v l =
+  set_loop (S (length l)) key0 v O false l
 
 (** val skip_type : guard list -> avp -> bool **)
 
@@ -2421,10 +2537,10 @@ let encode h p =
 (** val is_authentic_response :
     (bytes -> bytes) -> bytes -> bytes -> bytes -> bool **)
 
-let is_authentic_response h response0 request sec =
+let is_authentic_response h response0 request0 sec =
   if (||)
        ((||) (holds (gd g_IsAuthenticResponse O) (zlen response0))
-         (holds (gd g_IsAuthenticResponse (S O)) (zlen request)))
+         (holds (gd g_IsAuthenticResponse (S O)) (zlen request0)))
        (holds (gd g_IsAuthenticResponse (S (S O))) (zlen sec))
   then false
   else beq
@@ -2432,7 +2548,7 @@ let is_authentic_response h response0 request sec =
            (app (firstn (S (S (S (S O)))) response0)
              (app
                (firstn (S (S (S (S (S (S (S (S (S (S (S (S (S (S (S (S
-                 O)))))))))))))))) (skipn (S (S (S (S O)))) request))
+                 O)))))))))))))))) (skipn (S (S (S (S O)))) request0))
                (app
                  (skipn (S (S (S (S (S (S (S (S (S (S (S (S (S (S (S (S (S (S
                    (S (S O)))))))))))))))))))) response0) sec))))
@@ -2441,11 +2557,11 @@ let is_authentic_response h response0 request sec =
 
 (** val is_authentic_request : (bytes -> bytes) -> bytes -> bytes -> bool **)
 
-let is_authentic_request h request sec =
-  if (||) (holds (gd g_IsAuthenticRequest O) (zlen request))
+let is_authentic_request h request0 sec =
+  if (||) (holds (gd g_IsAuthenticRequest O) (zlen request0))
        (holds (gd g_IsAuthenticRequest (S O)) (zlen sec))
   then false
-  else (match request with
+  else (match request0 with
         | [] -> false
         | c :: _ ->
           if zmem (Z.of_N c) (sw sW_IsAuthenticRequest O O)
@@ -2453,14 +2569,14 @@ let is_authentic_request h request sec =
           else if zmem (Z.of_N c) (sw sW_IsAuthenticRequest O (S O))
                then beq
                       (h
-                        (app (firstn (S (S (S (S O)))) request)
+                        (app (firstn (S (S (S (S O)))) request0)
                           (app zeros16
                             (app
                               (skipn (S (S (S (S (S (S (S (S (S (S (S (S (S
                                 (S (S (S (S (S (S (S O))))))))))))))))))))
-                                request) sec))))
+                                request0) sec))))
                       (firstn (S (S (S (S (S (S (S (S (S (S (S (S (S (S (S (S
-                        O)))))))))))))))) (skipn (S (S (S (S O)))) request))
+                        O)))))))))))))))) (skipn (S (S (S (S O)))) request0))
                else false)
 
 (** val response : packet -> z -> packet **)
@@ -3116,477 +3232,122 @@ let rec client_loop h max_errors skip_verify wire sec ds count i =
 let exchange_recv h max_errors skip_verify wire sec ds =
   client_loop h max_errors skip_verify wire sec ds Z0 O
 
-type sret =
-| RetShutdown
-| RetErr
+type key = n * n
 
-type spc =
-| S_start
-| S_locked
-| S_reg
-| S_unl
-| S_registered
-| S_reading
-| S_exit of sret
-| S_exit_locked of sret
-| S_exit_unl of sret
-| S_returned of sret
+(** val key_eqb : key -> key -> bool **)
 
-type dpc =
-| D_start of bool
-| D_handler
-| D_exit
-| D_end
+let key_eqb a b =
+  (&&) (N.eqb (fst a) (fst b)) (N.eqb (snd a) (snd b))
 
-type hpc =
-| H_start
-| H_locked
-| H_close
-| H_cancel
-| H_dec
-| H_unlock
-| H_wait
-| H_select
-| H_ret_nil
-| H_ret_err
+type gstate =
+| GDropped
+| GRun of key
+| GClean of key
+| GDone
 
-type thread =
-| TServe of nat * spc
-| TDgram of dpc
-| TShut of hpc * bool
+type dstate = { inflight : key list; gs : gstate list }
 
-type state = { mu : bool; shut : bool; active : z; closes : nat; sdec : 
-               bool; regs : nat list; closedc : nat list; cancelled : 
-               bool; threads : thread list }
+(** val dinit : dstate **)
 
-(** val init : state **)
+let dinit =
+  { inflight = []; gs = [] }
 
-let init =
-  { mu = false; shut = false; active = Z0; closes = O; sdec = false; regs =
-    []; closedc = []; cancelled = false; threads = [] }
+type secret_res =
+| SecErr
+| Sec of bytes
 
-type action =
-| ARun
-| ARead_datagram of bool
-| ARead_error of bool
-| AHandler_return
-| AWake_nil
-| AWake_err
-| AExpire
+type request = { r_packet : packet; r_remote : n }
 
-(** val set_thread : state -> nat -> thread -> state **)
+(** val decide :
+    (bytes -> bytes) -> bool -> (n -> secret_res) -> n -> bytes -> request
+    option **)
 
-let set_thread s i t =
-  { mu = s.mu; shut = s.shut; active = s.active; closes = s.closes; sdec =
-    s.sdec; regs = s.regs; closedc = s.closedc; cancelled = s.cancelled;
-    threads = (update_at i t s.threads) }
+let decide h skip_verify secret_of from d =
+  match secret_of from with
+  | SecErr -> None
+  | Sec sec ->
+    if holds (gd g_PacketServer_Serve (S (S (S O)))) (zlen sec)
+    then None
+    else if (&&) (negb skip_verify) (negb (is_authentic_request h d sec))
+         then None
+         else (match parse d sec with
+               | Ok p -> Some { r_packet = p; r_remote = from }
+               | _ -> None)
 
-(** val with_mu : state -> bool -> state **)
+(** val mem : key -> key list -> bool **)
 
-let with_mu s b =
-  { mu = b; shut = s.shut; active = s.active; closes = s.closes; sdec =
-    s.sdec; regs = s.regs; closedc = s.closedc; cancelled = s.cancelled;
-    threads = s.threads }
+let mem k l =
+  existsb (key_eqb k) l
 
-(** val active_add : state -> state **)
+(** val delete : key -> key list -> key list **)
 
-let active_add s =
-  { mu = s.mu; shut = s.shut; active = (Z.add s.active (Zpos XH)); closes =
-    s.closes; sdec = s.sdec; regs = s.regs; closedc = s.closedc; cancelled =
-    s.cancelled; threads = s.threads }
-
-(** val active_done : state -> state **)
-
-let active_done s =
-  let a = Z.sub s.active (Zpos XH) in
-  { mu = s.mu; shut = s.shut; active = a; closes =
-  (if Z.eqb a (Zneg XH) then S s.closes else s.closes); sdec = s.sdec; regs =
-  s.regs; closedc = s.closedc; cancelled = s.cancelled; threads = s.threads }
-
-(** val remove_one : nat -> nat list -> nat list **)
-
-let rec remove_one c = function
+let rec delete k = function
 | [] -> []
-| x :: r -> if Nat.eqb x c then r else x :: (remove_one c r)
+| x :: r -> if key_eqb k x then delete k r else x :: (delete k r)
 
-(** val step_serve :
-    bool -> state -> nat -> nat -> spc -> action -> state option **)
+type devent =
+| DArrive of n * bytes
+| DReturn of nat
+| DClean of nat
 
-let step_serve legacy s i c pc a =
-  match pc with
-  | S_start ->
-    (match a with
-     | ARun ->
-       if s.mu
-       then None
-       else Some (set_thread (with_mu s true) i (TServe (c, S_locked)))
-     | _ -> None)
-  | S_locked ->
-    (match a with
-     | ARun ->
-       if s.shut
-       then Some
-              (set_thread (with_mu s false) i (TServe (c, (S_returned
-                RetShutdown))))
-       else Some
-              (set_thread { mu = s.mu; shut = s.shut; active = s.active;
-                closes = s.closes; sdec = s.sdec; regs = (c :: s.regs);
-                closedc = s.closedc; cancelled = s.cancelled; threads =
-                s.threads } i (TServe (c, S_reg)))
-     | _ -> None)
-  | S_reg ->
-    (match a with
-     | ARun ->
-       Some
-         (set_thread (if legacy then s else active_add s) i (TServe (c,
-           S_unl)))
-     | _ -> None)
-  | S_unl ->
-    (match a with
-     | ARun ->
-       Some (set_thread (with_mu s false) i (TServe (c, S_registered)))
-     | _ -> None)
-  | S_registered ->
-    (match a with
-     | ARun ->
-       Some
-         (set_thread (if legacy then active_add s else s) i (TServe (c,
-           S_reading)))
-     | _ -> None)
-  | S_reading ->
-    (match a with
-     | ARead_datagram drop ->
-       let s1 = active_add s in
-       Some { mu = s1.mu; shut = s1.shut; active = s1.active; closes =
-       s1.closes; sdec = s1.sdec; regs = s1.regs; closedc = s1.closedc;
-       cancelled = s1.cancelled; threads =
-       (app s1.threads ((TDgram (D_start drop)) :: [])) }
-     | ARead_error temp ->
-       if s.shut
-       then Some (set_thread s i (TServe (c, (S_exit RetShutdown))))
-       else if temp
-            then Some s
-            else Some (set_thread s i (TServe (c, (S_exit RetErr))))
-     | _ -> None)
-  | S_exit r ->
-    (match a with
-     | ARun ->
-       if s.mu
-       then None
-       else Some
-              (set_thread (with_mu s true) i (TServe (c, (S_exit_locked r))))
-     | _ -> None)
-  | S_exit_locked r ->
-    (match a with
-     | ARun ->
-       Some
-         (set_thread { mu = false; shut = s.shut; active = s.active; closes =
-           s.closes; sdec = s.sdec; regs = (remove_one c s.regs); closedc =
-           s.closedc; cancelled = s.cancelled; threads = s.threads } i
-           (TServe (c, (S_exit_unl r))))
-     | _ -> None)
-  | S_exit_unl r ->
-    (match a with
-     | ARun ->
-       Some (set_thread (active_done s) i (TServe (c, (S_returned r))))
-     | _ -> None)
-  | S_returned _ -> None
+type dout =
+| ODropped
+| ODispatched of request
+| ONone
 
-(** val step_dgram : state -> nat -> dpc -> action -> state option **)
+(** val dstep :
+    (bytes -> bytes) -> bool -> (n -> secret_res) -> dstate -> devent ->
+    dstate * dout **)
 
-let step_dgram s i pc a =
-  match pc with
-  | D_start drop ->
-    (match a with
-     | ARun ->
-       Some (set_thread s i (TDgram (if drop then D_exit else D_handler)))
-     | _ -> None)
-  | D_handler ->
-    (match a with
-     | AHandler_return -> Some (set_thread s i (TDgram D_exit))
-     | _ -> None)
-  | D_exit ->
-    (match a with
-     | ARun -> Some (set_thread (active_done s) i (TDgram D_end))
-     | _ -> None)
-  | D_end -> None
+let dstep h skip_verify secret_of s = function
+| DArrive (from, d) ->
+  (match decide h skip_verify secret_of from d with
+   | Some r ->
+     let k = (from, r.r_packet.ident) in
+     if mem k s.inflight
+     then ({ inflight = s.inflight; gs = (app s.gs (GDropped :: [])) },
+            ODropped)
+     else ({ inflight = (k :: s.inflight); gs =
+            (app s.gs ((GRun k) :: [])) }, (ODispatched r))
+   | None ->
+     ({ inflight = s.inflight; gs = (app s.gs (GDropped :: [])) }, ODropped))
+| DReturn g ->
+  (match nth_error s.gs g with
+   | Some g0 ->
+     (match g0 with
+      | GRun k ->
+        ({ inflight = s.inflight; gs = (update_at g (GClean k) s.gs) }, ONone)
+      | _ -> (s, ONone))
+   | None -> (s, ONone))
+| DClean g ->
+  (match nth_error s.gs g with
+   | Some g0 ->
+     (match g0 with
+      | GClean k ->
+        ({ inflight = (delete k s.inflight); gs = (update_at g GDone s.gs) },
+          ONone)
+      | _ -> (s, ONone))
+   | None -> (s, ONone))
 
-(** val step_shut : state -> nat -> hpc -> bool -> action -> state option **)
+(** val drun :
+    (bytes -> bytes) -> bool -> (n -> secret_res) -> dstate -> devent list ->
+    dstate * dout list **)
 
-let step_shut s i pc e a =
-  match pc with
-  | H_start ->
-    (match a with
-     | ARun ->
-       if s.mu
-       then None
-       else Some (set_thread (with_mu s true) i (TShut (H_locked, e)))
-     | AExpire -> Some (set_thread s i (TShut (pc, true)))
-     | _ -> None)
-  | H_locked ->
-    (match a with
-     | ARun ->
-       if s.shut
-       then Some (set_thread s i (TShut (H_unlock, e)))
-       else Some
-              (set_thread { mu = s.mu; shut = true; active = s.active;
-                closes = s.closes; sdec = s.sdec; regs = s.regs; closedc =
-                s.closedc; cancelled = s.cancelled; threads = s.threads } i
-                (TShut (H_close, e)))
-     | AExpire -> Some (set_thread s i (TShut (pc, true)))
-     | _ -> None)
-  | H_close ->
-    (match a with
-     | ARun ->
-       Some
-         (set_thread { mu = s.mu; shut = s.shut; active = s.active; closes =
-           s.closes; sdec = s.sdec; regs = s.regs; closedc =
-           (app s.regs s.closedc); cancelled = s.cancelled; threads =
-           s.threads } i (TShut (H_cancel, e)))
-     | AExpire -> Some (set_thread s i (TShut (pc, true)))
-     | _ -> None)
-  | H_cancel ->
-    (match a with
-     | ARun ->
-       Some
-         (set_thread { mu = s.mu; shut = s.shut; active = s.active; closes =
-           s.closes; sdec = s.sdec; regs = s.regs; closedc = s.closedc;
-           cancelled = true; threads = s.threads } i (TShut (H_dec, e)))
-     | AExpire -> Some (set_thread s i (TShut (pc, true)))
-     | _ -> None)
-  | H_dec ->
-    (match a with
-     | ARun ->
-       let s1 = active_done s in
-       Some
-       (set_thread { mu = s1.mu; shut = s1.shut; active = s1.active; closes =
-         s1.closes; sdec = true; regs = s1.regs; closedc = s1.closedc;
-         cancelled = s1.cancelled; threads = s1.threads } i (TShut (H_unlock,
-         e)))
-     | AExpire -> Some (set_thread s i (TShut (pc, true)))
-     | _ -> None)
-  | H_unlock ->
-    (match a with
-     | ARun -> Some (set_thread (with_mu s false) i (TShut (H_wait, e)))
-     | AExpire -> Some (set_thread s i (TShut (pc, true)))
-     | _ -> None)
-  | H_wait ->
-    (match a with
-     | ARun -> Some (set_thread s i (TShut (H_select, e)))
-     | AExpire -> Some (set_thread s i (TShut (pc, true)))
-     | _ -> None)
-  | H_select ->
-    (match a with
-     | AWake_nil ->
-       if Nat.ltb O s.closes
-       then Some (set_thread s i (TShut (H_ret_nil, e)))
-       else None
-     | AWake_err ->
-       if e then Some (set_thread s i (TShut (H_ret_err, e))) else None
-     | AExpire -> Some (set_thread s i (TShut (pc, true)))
-     | _ -> None)
-  | _ ->
-    (match a with
-     | AExpire -> Some (set_thread s i (TShut (pc, true)))
-     | _ -> None)
+let rec drun h skip_verify secret_of s = function
+| [] -> (s, [])
+| e :: r ->
+  let (s1, o) = dstep h skip_verify secret_of s e in
+  let (s2, os) = drun h skip_verify secret_of s1 r in (s2, (o :: os))
 
-(** val step : bool -> state -> nat -> action -> state option **)
+(** val response_write :
+    (bytes -> bytes) -> request -> packet -> (n * bytes) res **)
 
-let step legacy s i a =
-  match nth_error s.threads i with
-  | Some t ->
-    (match t with
-     | TServe (c, pc) -> step_serve legacy s i c pc a
-     | TDgram pc -> step_dgram s i pc a
-     | TShut (pc, e) -> step_shut s i pc e a)
-  | None -> None
-
-(** val add_thread : state -> thread -> state **)
-
-let add_thread s t =
-  { mu = s.mu; shut = s.shut; active = s.active; closes = s.closes; sdec =
-    s.sdec; regs = s.regs; closedc = s.closedc; cancelled = s.cancelled;
-    threads = (app s.threads (t :: [])) }
-
-type hact =
-| HServe of nat
-| HRelease of nat
-| HDeliver of nat * bool
-| HHandlerDone of nat
-| HShutdown
-| HWait of nat
-| HExpire of nat
-
-(** val run_thread : bool -> nat -> state -> nat -> state **)
-
-let rec run_thread legacy fuel s i =
-  match fuel with
-  | O -> s
-  | S f ->
-    (match nth_error s.threads i with
-     | Some t ->
-       (match t with
-        | TServe (_, pc) ->
-          (match pc with
-           | S_registered -> s
-           | _ ->
-             (match step legacy s i ARun with
-              | Some s' -> run_thread legacy f s' i
-              | None -> s))
-        | TDgram _ ->
-          (match step legacy s i ARun with
-           | Some s' -> run_thread legacy f s' i
-           | None -> s)
-        | TShut (pc, _) ->
-          (match pc with
-           | H_wait -> s
-           | _ ->
-             (match step legacy s i ARun with
-              | Some s' -> run_thread legacy f s' i
-              | None -> s)))
-     | None ->
-       (match step legacy s i ARun with
-        | Some s' -> run_thread legacy f s' i
-        | None -> s))
-
-(** val settle_thread : bool -> state -> nat -> state **)
-
-let settle_thread legacy s i =
-  match nth_error s.threads i with
-  | Some t ->
-    (match t with
-     | TServe (c, pc) ->
-       (match pc with
-        | S_reading ->
-          if existsb (Nat.eqb c) s.closedc
-          then (match step legacy s i (ARead_error false) with
-                | Some s' ->
-                  run_thread legacy (S (S (S (S (S (S (S (S (S (S (S (S (S (S
-                    (S (S (S (S (S (S O)))))))))))))))))))) s' i
-                | None -> s)
-          else s
-        | _ -> s)
-     | TDgram _ -> s
-     | TShut (pc, e) ->
-       (match pc with
-        | H_select ->
-          if Nat.ltb O s.closes
-          then (match step legacy s i AWake_nil with
-                | Some s' -> s'
-                | None -> s)
-          else if e
-               then (match step legacy s i AWake_err with
-                     | Some s' -> s'
-                     | None -> s)
-               else s
-        | _ -> s))
-  | None -> s
-
-(** val settle_all : bool -> state -> nat -> state **)
-
-let rec settle_all legacy s = function
-| O -> s
-| S n' -> settle_thread legacy (settle_all legacy s n') n'
-
-(** val settle : bool -> state -> state **)
-
-let settle legacy s =
-  let n0 = length s.threads in
-  settle_all legacy (settle_all legacy (settle_all legacy s n0) n0) n0
-
-(** val force_step : bool -> state -> nat -> action -> state **)
-
-let force_step legacy s i a =
-  match step legacy s i a with
-  | Some s' -> s'
-  | None -> s
-
-(** val do_hact : bool -> state -> hact -> state **)
-
-let do_hact legacy s h =
-  settle legacy
-    (match h with
-     | HServe c ->
-       let s1 = add_thread s (TServe (c, S_start)) in
-       run_thread legacy (S (S (S (S (S (S (S (S (S (S (S (S (S (S (S (S (S
-         (S (S (S O)))))))))))))))))))) s1 (length s.threads)
-     | HRelease i ->
-       (match nth_error s.threads i with
-        | Some t ->
-          (match t with
-           | TServe (_, pc) ->
-             (match pc with
-              | S_registered -> force_step legacy s i ARun
-              | _ -> s)
-           | _ -> s)
-        | None -> s)
-     | HDeliver (i, drop) ->
-       let s1 = force_step legacy s i (ARead_datagram drop) in
-       if Nat.ltb (length s.threads) (length s1.threads)
-       then run_thread legacy (S (S (S (S (S (S (S (S (S (S (S (S (S (S (S (S
-              (S (S (S (S O)))))))))))))))))))) s1 (length s.threads)
-       else s1
-     | HHandlerDone g ->
-       run_thread legacy (S (S (S (S (S (S (S (S (S (S (S (S (S (S (S (S (S
-         (S (S (S O))))))))))))))))))))
-         (force_step legacy s g AHandler_return) g
-     | HShutdown ->
-       let s1 = add_thread s (TShut (H_start, false)) in
-       run_thread legacy (S (S (S (S (S (S (S (S (S (S (S (S (S (S (S (S (S
-         (S (S (S O)))))))))))))))))))) s1 (length s.threads)
-     | HWait j ->
-       (match nth_error s.threads j with
-        | Some t ->
-          (match t with
-           | TShut (pc, _) ->
-             (match pc with
-              | H_wait -> force_step legacy s j ARun
-              | _ -> s)
-           | _ -> s)
-        | None -> s)
-     | HExpire j -> force_step legacy s j AExpire)
-
-(** val status : thread -> z **)
-
-let status = function
-| TServe (_, pc) ->
-  (match pc with
-   | S_registered -> Zpos (XI (XI (XO XH)))
-   | S_reading -> Zpos (XO (XO (XI XH)))
-   | S_returned r ->
-     (match r with
-      | RetShutdown -> Zpos (XI (XO (XI XH)))
-      | RetErr -> Zpos (XO (XI (XI XH))))
-   | _ -> Zpos (XI (XI (XO (XO XH)))))
-| TDgram pc ->
-  (match pc with
-   | D_handler -> Zpos (XI (XO (XI (XO XH))))
-   | D_end -> Zpos (XO (XI (XI (XO XH))))
-   | _ -> Zpos (XI (XO (XI (XI XH)))))
-| TShut (pc, expired) ->
-  (match pc with
-   | H_wait -> Zpos (XI (XI (XI (XI XH))))
-   | H_select -> Zpos (XO (XO (XO (XO (XO XH)))))
-   | H_ret_nil ->
-     if expired
-     then Zpos (XI (XI (XO (XO (XO XH)))))
-     else Zpos (XI (XO (XO (XO (XO XH)))))
-   | H_ret_err -> Zpos (XI (XI (XO (XO (XO XH)))))
-   | _ -> Zpos (XI (XI (XI (XO (XO XH))))))
-
-(** val run_hacts : bool -> state -> hact list -> z list list **)
-
-let rec run_hacts legacy s = function
-| [] -> []
-| h :: r ->
-  let s' = do_hact legacy s h in
-  (app (map status s'.threads)
-    ((if Nat.leb (S (S O)) s'.closes then Zpos (XO XH) else Z0) :: ((Z.of_nat
-                                                                    (length
-                                                                    (nodup
-                                                                    Nat.eq_dec
-                                                                    s'.closedc))) :: []))) :: 
-  (run_hacts legacy s' r)
+let response_write h r reply =
+  match encode h reply with
+  | Ok w -> Ok (r.r_remote, w)
+  | Err e -> Err e
+  | Panic -> Panic
+  | OutOfFuel -> OutOfFuel
 
 (** val is_key : z -> avp -> bool **)
 
@@ -4251,6 +4012,528 @@ let spec_is_authentic_request h q sec =
        (||) (zmem (Z.of_N c) rfc_verbatim_codes)
          ((&&) (zmem (Z.of_N c) rfc_hashed_request_codes)
            (beq (auth_field q) (h (covered q zero16 sec)))))
+
+(** val spec_decide :
+    (bytes -> bytes) -> bool -> (n -> secret_res) -> n -> bytes -> request
+    option **)
+
+let spec_decide h skip_verify secret_of from d =
+  match secret_of from with
+  | SecErr -> None
+  | Sec sec ->
+    if Nat.eqb (length sec) O
+    then None
+    else if (&&) (negb skip_verify) (negb (spec_is_authentic_request h d sec))
+         then None
+         else (match spec_parse d sec with
+               | Ok a ->
+                 let (p, at_) = a in
+                 let (p0, s) = p in
+                 let (p1, au) = p0 in
+                 let (c, i) = p1 in
+                 Some { r_packet = { code = c; ident = i; auth = au; secret =
+                 s; pattrs = at_ }; r_remote = from }
+               | _ -> None)
+
+(** val spec_dstep :
+    (bytes -> bytes) -> bool -> (n -> secret_res) -> dstate -> devent ->
+    dstate * dout **)
+
+let spec_dstep h skip_verify secret_of s e = match e with
+| DArrive (from, d) ->
+  (match spec_decide h skip_verify secret_of from d with
+   | Some r ->
+     let k = (from, r.r_packet.ident) in
+     if mem k s.inflight
+     then ({ inflight = s.inflight; gs = (app s.gs (GDropped :: [])) },
+            ODropped)
+     else ({ inflight = (k :: s.inflight); gs =
+            (app s.gs ((GRun k) :: [])) }, (ODispatched r))
+   | None ->
+     ({ inflight = s.inflight; gs = (app s.gs (GDropped :: [])) }, ODropped))
+| _ -> dstep h skip_verify secret_of s e
+
+(** val spec_drun :
+    (bytes -> bytes) -> bool -> (n -> secret_res) -> dstate -> devent list ->
+    dstate * dout list **)
+
+let rec spec_drun h skip_verify secret_of s = function
+| [] -> (s, [])
+| e :: r ->
+  let (s1, o) = spec_dstep h skip_verify secret_of s e in
+  let (s2, os) = spec_drun h skip_verify secret_of s1 r in (s2, (o :: os))
+
+type sret =
+| RetShutdown
+| RetErr
+
+type spc =
+| S_start
+| S_locked
+| S_reg
+| S_unl
+| S_registered
+| S_reading
+| S_exit of sret
+| S_exit_locked of sret
+| S_exit_unl of sret
+| S_returned of sret
+
+type dpc =
+| D_start of bool
+| D_handler
+| D_exit
+| D_end
+
+type hpc =
+| H_start
+| H_locked
+| H_close
+| H_cancel
+| H_dec
+| H_unlock
+| H_wait
+| H_select
+| H_ret_nil
+| H_ret_err
+
+type thread =
+| TServe of nat * spc
+| TDgram of dpc
+| TShut of hpc * bool
+
+type state = { mu : bool; shut : bool; active : z; closes : nat; sdec : 
+               bool; regs : nat list; closedc : nat list; cancelled : 
+               bool; threads : thread list }
+
+(** val init : state **)
+
+let init =
+  { mu = false; shut = false; active = Z0; closes = O; sdec = false; regs =
+    []; closedc = []; cancelled = false; threads = [] }
+
+type action =
+| ARun
+| ARead_datagram of bool
+| ARead_error of bool
+| AHandler_return
+| AWake_nil
+| AWake_err
+| AExpire
+
+(** val set_thread : state -> nat -> thread -> state **)
+
+let set_thread s i t =
+  { mu = s.mu; shut = s.shut; active = s.active; closes = s.closes; sdec =
+    s.sdec; regs = s.regs; closedc = s.closedc; cancelled = s.cancelled;
+    threads = (update_at i t s.threads) }
+
+(** val with_mu : state -> bool -> state **)
+
+let with_mu s b =
+  { mu = b; shut = s.shut; active = s.active; closes = s.closes; sdec =
+    s.sdec; regs = s.regs; closedc = s.closedc; cancelled = s.cancelled;
+    threads = s.threads }
+
+(** val active_add : state -> state **)
+
+let active_add s =
+  { mu = s.mu; shut = s.shut; active = (Z.add s.active (Zpos XH)); closes =
+    s.closes; sdec = s.sdec; regs = s.regs; closedc = s.closedc; cancelled =
+    s.cancelled; threads = s.threads }
+
+(** val active_done : state -> state **)
+
+let active_done s =
+  let a = Z.sub s.active (Zpos XH) in
+  { mu = s.mu; shut = s.shut; active = a; closes =
+  (if Z.eqb a (Zneg XH) then S s.closes else s.closes); sdec = s.sdec; regs =
+  s.regs; closedc = s.closedc; cancelled = s.cancelled; threads = s.threads }
+
+(** val remove_one : nat -> nat list -> nat list **)
+
+let rec remove_one c = function
+| [] -> []
+| x :: r -> if Nat.eqb x c then r else x :: (remove_one c r)
+
+(** val step_serve :
+    bool -> state -> nat -> nat -> spc -> action -> state option **)
+
+let step_serve legacy s i c pc a =
+  match pc with
+  | S_start ->
+    (match a with
+     | ARun ->
+       if s.mu
+       then None
+       else Some (set_thread (with_mu s true) i (TServe (c, S_locked)))
+     | _ -> None)
+  | S_locked ->
+    (match a with
+     | ARun ->
+       if s.shut
+       then Some
+              (set_thread (with_mu s false) i (TServe (c, (S_returned
+                RetShutdown))))
+       else Some
+              (set_thread { mu = s.mu; shut = s.shut; active = s.active;
+                closes = s.closes; sdec = s.sdec; regs = (c :: s.regs);
+                closedc = s.closedc; cancelled = s.cancelled; threads =
+                s.threads } i (TServe (c, S_reg)))
+     | _ -> None)
+  | S_reg ->
+    (match a with
+     | ARun ->
+       Some
+         (set_thread (if legacy then s else active_add s) i (TServe (c,
+           S_unl)))
+     | _ -> None)
+  | S_unl ->
+    (match a with
+     | ARun ->
+       Some (set_thread (with_mu s false) i (TServe (c, S_registered)))
+     | _ -> None)
+  | S_registered ->
+    (match a with
+     | ARun ->
+       Some
+         (set_thread (if legacy then active_add s else s) i (TServe (c,
+           S_reading)))
+     | _ -> None)
+  | S_reading ->
+    (match a with
+     | ARead_datagram drop ->
+       let s1 = active_add s in
+       Some { mu = s1.mu; shut = s1.shut; active = s1.active; closes =
+       s1.closes; sdec = s1.sdec; regs = s1.regs; closedc = s1.closedc;
+       cancelled = s1.cancelled; threads =
+       (app s1.threads ((TDgram (D_start drop)) :: [])) }
+     | ARead_error temp ->
+       if s.shut
+       then Some (set_thread s i (TServe (c, (S_exit RetShutdown))))
+       else if temp
+            then Some s
+            else Some (set_thread s i (TServe (c, (S_exit RetErr))))
+     | _ -> None)
+  | S_exit r ->
+    (match a with
+     | ARun ->
+       if s.mu
+       then None
+       else Some
+              (set_thread (with_mu s true) i (TServe (c, (S_exit_locked r))))
+     | _ -> None)
+  | S_exit_locked r ->
+    (match a with
+     | ARun ->
+       Some
+         (set_thread { mu = false; shut = s.shut; active = s.active; closes =
+           s.closes; sdec = s.sdec; regs = (remove_one c s.regs); closedc =
+           s.closedc; cancelled = s.cancelled; threads = s.threads } i
+           (TServe (c, (S_exit_unl r))))
+     | _ -> None)
+  | S_exit_unl r ->
+    (match a with
+     | ARun ->
+       Some (set_thread (active_done s) i (TServe (c, (S_returned r))))
+     | _ -> None)
+  | S_returned _ -> None
+
+(** val step_dgram : state -> nat -> dpc -> action -> state option **)
+
+let step_dgram s i pc a =
+  match pc with
+  | D_start drop ->
+    (match a with
+     | ARun ->
+       Some (set_thread s i (TDgram (if drop then D_exit else D_handler)))
+     | _ -> None)
+  | D_handler ->
+    (match a with
+     | AHandler_return -> Some (set_thread s i (TDgram D_exit))
+     | _ -> None)
+  | D_exit ->
+    (match a with
+     | ARun -> Some (set_thread (active_done s) i (TDgram D_end))
+     | _ -> None)
+  | D_end -> None
+
+(** val step_shut : state -> nat -> hpc -> bool -> action -> state option **)
+
+let step_shut s i pc e a =
+  match pc with
+  | H_start ->
+    (match a with
+     | ARun ->
+       if s.mu
+       then None
+       else Some (set_thread (with_mu s true) i (TShut (H_locked, e)))
+     | AExpire -> Some (set_thread s i (TShut (pc, true)))
+     | _ -> None)
+  | H_locked ->
+    (match a with
+     | ARun ->
+       if s.shut
+       then Some (set_thread s i (TShut (H_unlock, e)))
+       else Some
+              (set_thread { mu = s.mu; shut = true; active = s.active;
+                closes = s.closes; sdec = s.sdec; regs = s.regs; closedc =
+                s.closedc; cancelled = s.cancelled; threads = s.threads } i
+                (TShut (H_close, e)))
+     | AExpire -> Some (set_thread s i (TShut (pc, true)))
+     | _ -> None)
+  | H_close ->
+    (match a with
+     | ARun ->
+       Some
+         (set_thread { mu = s.mu; shut = s.shut; active = s.active; closes =
+           s.closes; sdec = s.sdec; regs = s.regs; closedc =
+           (app s.regs s.closedc); cancelled = s.cancelled; threads =
+           s.threads } i (TShut (H_cancel, e)))
+     | AExpire -> Some (set_thread s i (TShut (pc, true)))
+     | _ -> None)
+  | H_cancel ->
+    (match a with
+     | ARun ->
+       Some
+         (set_thread { mu = s.mu; shut = s.shut; active = s.active; closes =
+           s.closes; sdec = s.sdec; regs = s.regs; closedc = s.closedc;
+           cancelled = true; threads = s.threads } i (TShut (H_dec, e)))
+     | AExpire -> Some (set_thread s i (TShut (pc, true)))
+     | _ -> None)
+  | H_dec ->
+    (match a with
+     | ARun ->
+       let s1 = active_done s in
+       Some
+       (set_thread { mu = s1.mu; shut = s1.shut; active = s1.active; closes =
+         s1.closes; sdec = true; regs = s1.regs; closedc = s1.closedc;
+         cancelled = s1.cancelled; threads = s1.threads } i (TShut (H_unlock,
+         e)))
+     | AExpire -> Some (set_thread s i (TShut (pc, true)))
+     | _ -> None)
+  | H_unlock ->
+    (match a with
+     | ARun -> Some (set_thread (with_mu s false) i (TShut (H_wait, e)))
+     | AExpire -> Some (set_thread s i (TShut (pc, true)))
+     | _ -> None)
+  | H_wait ->
+    (match a with
+     | ARun -> Some (set_thread s i (TShut (H_select, e)))
+     | AExpire -> Some (set_thread s i (TShut (pc, true)))
+     | _ -> None)
+  | H_select ->
+    (match a with
+     | AWake_nil ->
+       if Nat.ltb O s.closes
+       then Some (set_thread s i (TShut (H_ret_nil, e)))
+       else None
+     | AWake_err ->
+       if e then Some (set_thread s i (TShut (H_ret_err, e))) else None
+     | AExpire -> Some (set_thread s i (TShut (pc, true)))
+     | _ -> None)
+  | _ ->
+    (match a with
+     | AExpire -> Some (set_thread s i (TShut (pc, true)))
+     | _ -> None)
+
+(** val step : bool -> state -> nat -> action -> state option **)
+
+let step legacy s i a =
+  match nth_error s.threads i with
+  | Some t ->
+    (match t with
+     | TServe (c, pc) -> step_serve legacy s i c pc a
+     | TDgram pc -> step_dgram s i pc a
+     | TShut (pc, e) -> step_shut s i pc e a)
+  | None -> None
+
+(** val add_thread : state -> thread -> state **)
+
+let add_thread s t =
+  { mu = s.mu; shut = s.shut; active = s.active; closes = s.closes; sdec =
+    s.sdec; regs = s.regs; closedc = s.closedc; cancelled = s.cancelled;
+    threads = (app s.threads (t :: [])) }
+
+type hact =
+| HServe of nat
+| HRelease of nat
+| HDeliver of nat * bool
+| HHandlerDone of nat
+| HShutdown
+| HWait of nat
+| HExpire of nat
+
+(** val run_thread : bool -> nat -> state -> nat -> state **)
+
+let rec run_thread legacy fuel s i =
+  match fuel with
+  | O -> s
+  | S f ->
+    (match nth_error s.threads i with
+     | Some t ->
+       (match t with
+        | TServe (_, pc) ->
+          (match pc with
+           | S_registered -> s
+           | _ ->
+             (match step legacy s i ARun with
+              | Some s' -> run_thread legacy f s' i
+              | None -> s))
+        | TDgram _ ->
+          (match step legacy s i ARun with
+           | Some s' -> run_thread legacy f s' i
+           | None -> s)
+        | TShut (pc, _) ->
+          (match pc with
+           | H_wait -> s
+           | _ ->
+             (match step legacy s i ARun with
+              | Some s' -> run_thread legacy f s' i
+              | None -> s)))
+     | None ->
+       (match step legacy s i ARun with
+        | Some s' -> run_thread legacy f s' i
+        | None -> s))
+
+(** val settle_thread : bool -> state -> nat -> state **)
+
+let settle_thread legacy s i =
+  match nth_error s.threads i with
+  | Some t ->
+    (match t with
+     | TServe (c, pc) ->
+       (match pc with
+        | S_reading ->
+          if existsb (Nat.eqb c) s.closedc
+          then (match step legacy s i (ARead_error false) with
+                | Some s' ->
+                  run_thread legacy (S (S (S (S (S (S (S (S (S (S (S (S (S (S
+                    (S (S (S (S (S (S O)))))))))))))))))))) s' i
+                | None -> s)
+          else s
+        | _ -> s)
+     | TDgram _ -> s
+     | TShut (pc, e) ->
+       (match pc with
+        | H_select ->
+          if Nat.ltb O s.closes
+          then (match step legacy s i AWake_nil with
+                | Some s' -> s'
+                | None -> s)
+          else if e
+               then (match step legacy s i AWake_err with
+                     | Some s' -> s'
+                     | None -> s)
+               else s
+        | _ -> s))
+  | None -> s
+
+(** val settle_all : bool -> state -> nat -> state **)
+
+let rec settle_all legacy s = function
+| O -> s
+| S n' -> settle_thread legacy (settle_all legacy s n') n'
+
+(** val settle : bool -> state -> state **)
+
+let settle legacy s =
+  let n0 = length s.threads in
+  settle_all legacy (settle_all legacy (settle_all legacy s n0) n0) n0
+
+(** val force_step : bool -> state -> nat -> action -> state **)
+
+let force_step legacy s i a =
+  match step legacy s i a with
+  | Some s' -> s'
+  | None -> s
+
+(** val do_hact : bool -> state -> hact -> state **)
+
+let do_hact legacy s h =
+  settle legacy
+    (match h with
+     | HServe c ->
+       let s1 = add_thread s (TServe (c, S_start)) in
+       run_thread legacy (S (S (S (S (S (S (S (S (S (S (S (S (S (S (S (S (S
+         (S (S (S O)))))))))))))))))))) s1 (length s.threads)
+     | HRelease i ->
+       (match nth_error s.threads i with
+        | Some t ->
+          (match t with
+           | TServe (_, pc) ->
+             (match pc with
+              | S_registered -> force_step legacy s i ARun
+              | _ -> s)
+           | _ -> s)
+        | None -> s)
+     | HDeliver (i, drop) ->
+       let s1 = force_step legacy s i (ARead_datagram drop) in
+       if Nat.ltb (length s.threads) (length s1.threads)
+       then run_thread legacy (S (S (S (S (S (S (S (S (S (S (S (S (S (S (S (S
+              (S (S (S (S O)))))))))))))))))))) s1 (length s.threads)
+       else s1
+     | HHandlerDone g ->
+       run_thread legacy (S (S (S (S (S (S (S (S (S (S (S (S (S (S (S (S (S
+         (S (S (S O))))))))))))))))))))
+         (force_step legacy s g AHandler_return) g
+     | HShutdown ->
+       let s1 = add_thread s (TShut (H_start, false)) in
+       run_thread legacy (S (S (S (S (S (S (S (S (S (S (S (S (S (S (S (S (S
+         (S (S (S O)))))))))))))))))))) s1 (length s.threads)
+     | HWait j ->
+       (match nth_error s.threads j with
+        | Some t ->
+          (match t with
+           | TShut (pc, _) ->
+             (match pc with
+              | H_wait -> force_step legacy s j ARun
+              | _ -> s)
+           | _ -> s)
+        | None -> s)
+     | HExpire j -> force_step legacy s j AExpire)
+
+(** val status : thread -> z **)
+
+let status = function
+| TServe (_, pc) ->
+  (match pc with
+   | S_registered -> Zpos (XI (XI (XO XH)))
+   | S_reading -> Zpos (XO (XO (XI XH)))
+   | S_returned r ->
+     (match r with
+      | RetShutdown -> Zpos (XI (XO (XI XH)))
+      | RetErr -> Zpos (XO (XI (XI XH))))
+   | _ -> Zpos (XI (XI (XO (XO XH)))))
+| TDgram pc ->
+  (match pc with
+   | D_handler -> Zpos (XI (XO (XI (XO XH))))
+   | D_end -> Zpos (XO (XI (XI (XO XH))))
+   | _ -> Zpos (XI (XO (XI (XI XH)))))
+| TShut (pc, expired) ->
+  (match pc with
+   | H_wait -> Zpos (XI (XI (XI (XI XH))))
+   | H_select -> Zpos (XO (XO (XO (XO (XO XH)))))
+   | H_ret_nil ->
+     if expired
+     then Zpos (XI (XI (XO (XO (XO XH)))))
+     else Zpos (XI (XO (XO (XO (XO XH)))))
+   | H_ret_err -> Zpos (XI (XI (XO (XO (XO XH)))))
+   | _ -> Zpos (XI (XI (XI (XO (XO XH))))))
+
+(** val run_hacts : bool -> state -> hact list -> z list list **)
+
+let rec run_hacts legacy s = function
+| [] -> []
+| h :: r ->
+  let s' = do_hact legacy s h in
+  (app (map status s'.threads)
+    ((if Nat.leb (S (S O)) s'.closes then Zpos (XO XH) else Z0) :: ((Z.of_nat
+                                                                    (length
+                                                                    (nodup
+                                                                    Nat.eq_dec
+                                                                    s'.closedc))) :: []))) :: 
+  (run_hacts legacy s' r)
 
 type verdict =
 | Acceptable of ((((z * n) * bytes) * bytes) * attrs)
@@ -10229,6 +10512,122 @@ let dispatch_sched name _ zs =
                 (run_hacts true init (take_hacts zs)))
        else None
 
+(** val take_devents : z list -> bytes list -> devent list **)
+
+let rec take_devents zs bs =
+  match zs with
+  | [] -> []
+  | k :: l ->
+    (match l with
+     | [] -> []
+     | a :: r ->
+       if Z.eqb k Z0
+       then (match bs with
+             | [] -> []
+             | d :: bs' -> (DArrive ((Z.to_N a), d)) :: (take_devents r bs'))
+       else (if Z.eqb k (Zpos XH)
+             then DReturn (Z.to_nat a)
+             else DClean (Z.to_nat a)) :: (take_devents r bs))
+
+(** val t_dout : dout -> tok list **)
+
+let t_dout = function
+| ODropped -> (TI Z0) :: []
+| ODispatched r ->
+  (TI (Zpos XH)) :: ((TI (Z.of_N r.r_remote)) :: (t_packet r.r_packet))
+| ONone -> (TI (Zpos (XO XH))) :: []
+
+(** val dispatch_c06 : bytes -> bytes list -> z list -> tok list option **)
+
+let dispatch_c06 name bs zs =
+  if name_is name (String ((Ascii (true, true, false, false, true, true,
+       true, false)), (String ((Ascii (false, true, true, true, false, true,
+       false, false)), (String ((Ascii (false, false, true, false, false,
+       true, true, false)), (String ((Ascii (true, false, false, true, false,
+       true, true, false)), (String ((Ascii (true, true, false, false, true,
+       true, true, false)), (String ((Ascii (false, false, false, false,
+       true, true, true, false)), (String ((Ascii (true, false, false, false,
+       false, true, true, false)), (String ((Ascii (false, false, true,
+       false, true, true, true, false)), (String ((Ascii (true, true, false,
+       false, false, true, true, false)), (String ((Ascii (false, false,
+       false, true, false, true, true, false)),
+       EmptyString))))))))))))))))))))
+  then (match zs with
+        | [] -> Some ((TI (Zneg (XO (XO (XO (XO (XO (XI XH)))))))) :: [])
+        | sk :: l ->
+          (match l with
+           | [] -> Some ((TI (Zneg (XO (XO (XO (XO (XO (XI XH)))))))) :: [])
+           | np :: r ->
+             let n0 = Z.to_nat np in
+             let errs = firstn n0 r in
+             let secs = firstn n0 bs in
+             let so = fun a ->
+               if Z.eqb (nth (N.to_nat a) errs (Zpos XH)) (Zpos XH)
+               then SecErr
+               else Sec (nth (N.to_nat a) secs [])
+             in
+             let (s, outs) =
+               spec_drun md5 (Z.eqb sk (Zpos XH)) so dinit
+                 (take_devents (skipn n0 r) (skipn n0 bs))
+             in
+             Some (app (flat_map t_dout outs) ((TI (zlen s.inflight)) :: []))))
+  else if name_is name (String ((Ascii (true, false, true, true, false, true,
+            true, false)), (String ((Ascii (false, true, true, true, false,
+            true, false, false)), (String ((Ascii (false, false, true, false,
+            false, true, true, false)), (String ((Ascii (true, false, false,
+            true, false, true, true, false)), (String ((Ascii (true, true,
+            false, false, true, true, true, false)), (String ((Ascii (false,
+            false, false, false, true, true, true, false)), (String ((Ascii
+            (true, false, false, false, false, true, true, false)), (String
+            ((Ascii (false, false, true, false, true, true, true, false)),
+            (String ((Ascii (true, true, false, false, false, true, true,
+            false)), (String ((Ascii (false, false, false, true, false, true,
+            true, false)), EmptyString))))))))))))))))))))
+       then (match zs with
+             | [] -> Some ((TI (Zneg (XO (XO (XO (XO (XO (XI XH)))))))) :: [])
+             | sk :: l ->
+               (match l with
+                | [] ->
+                  Some ((TI (Zneg (XO (XO (XO (XO (XO (XI XH)))))))) :: [])
+                | np :: r ->
+                  let n0 = Z.to_nat np in
+                  let errs = firstn n0 r in
+                  let secs = firstn n0 bs in
+                  let so = fun a ->
+                    if Z.eqb (nth (N.to_nat a) errs (Zpos XH)) (Zpos XH)
+                    then SecErr
+                    else Sec (nth (N.to_nat a) secs [])
+                  in
+                  let (s, outs) =
+                    drun md5 (Z.eqb sk (Zpos XH)) so dinit
+                      (take_devents (skipn n0 r) (skipn n0 bs))
+                  in
+                  Some
+                  (app (flat_map t_dout outs) ((TI (zlen s.inflight)) :: []))))
+       else if name_is name (String ((Ascii (true, false, true, true, false,
+                 true, true, false)), (String ((Ascii (false, true, true,
+                 true, false, true, false, false)), (String ((Ascii (false,
+                 true, false, false, true, true, true, false)), (String
+                 ((Ascii (true, false, true, false, false, true, true,
+                 false)), (String ((Ascii (false, false, false, false, true,
+                 true, true, false)), (String ((Ascii (false, false, true,
+                 true, false, true, true, false)), (String ((Ascii (true,
+                 false, false, true, true, true, true, false)),
+                 EmptyString))))))))))))))
+            then (match parse (b1 bs) (b2 bs) with
+                  | Ok p ->
+                    Some
+                      (t_res
+                        (response_write md5 { r_packet = p; r_remote =
+                          (Z.to_N (nth (S O) zs Z0)) } { code = (z1 zs);
+                          ident = p.ident; auth = p.auth; secret = p.secret;
+                          pattrs = ({ atype = (Zpos (XO (XI (XO (XO XH)))));
+                          aval = (b3 bs) } :: []) }) (fun x -> (TI
+                        (Z.of_N (fst x))) :: ((TB (snd x)) :: [])))
+                  | _ ->
+                    Some ((TI (Zneg (XI (XI (XI (XI (XI (XO XH)))))))) :: []))
+            else None
+
 (** val dispatch : bytes -> bytes list -> z list -> tok list **)
 
 let dispatch name bs zs =
@@ -10282,5 +10681,8 @@ let dispatch name bs zs =
                              (match dispatch_sched name bs zs with
                               | Some t -> t
                               | None ->
-                                (TI (Zneg (XI (XO (XO (XO (XO (XI
-                                  XH)))))))) :: [])))))
+                                (match dispatch_c06 name bs zs with
+                                 | Some t -> t
+                                 | None ->
+                                   (TI (Zneg (XI (XO (XO (XO (XO (XI
+                                     XH)))))))) :: []))))))
